@@ -10,7 +10,9 @@ LEVEL = "proof"
 RULE = ("kinds: ctor (random rows, arity 1-3, names incl. '' / non-ASCII / the control name in any column, doses incl. "
         "negative, -0.0, 0, subnormal, repeated; observations/mask given or not), reuse (construct a superset screen, then "
         "construct a random sub-list of its rows with the superset's own mappings), corrupt (supplied mapping with a gap, "
-        "a missing key, a non-integer dtype, shifted ids), valid_ids (numpy_array_is_0_indexed_integers on random id arrays). "
+        "a missing key, a non-integer dtype, shifted ids), valid_ids (numpy_array_is_0_indexed_integers on random id arrays), "
+        "space (an ExperimentSpace built directly from random mapping arrays - repeated names / ids, names that are absent, the control "
+        "name, dose 0.0 / -0.0 - and asked all six query methods), space_of_screen (the same queries on from_screen of a constructed screen). "
         "Non-trivial: at least 2 rows; distinct by canonical description.")
 THEOREMS = {
     "C01_sentinel_from_source": "the model's sentinel is the CONTROL_SENTINEL_VALUE read from /repo on this run",
@@ -52,6 +54,23 @@ THEOREMS = {
         "screen stores = space_n_samples",
     "C01_model_is_source_n_unique_treatments": "the translated property ExperimentSpace.n_unique_treatments (np.unique of np.setdiff1d(ids, "
         "[sentinel])) on the stored treatment-mapping tuple = space_n_treatments",
+    "C01_model_is_source_space_init": "the translated ExperimentSpace.__init__ stores exactly its three arguments (treatment-mapping tuple, "
+        "sample-mapping tuple, control name), whatever the instance held before",
+    "C01_model_is_source_space_init_arrays": "the constructor-call primitive arrays_space of the from_screen / load_h5 links (C02) agrees with "
+        "the translated __init__: when it answers a model space, __init__ on a fresh instance builds that space's object",
+    "C01_model_is_source_n_unique_treatment_types": "translated property = number of distinct treatment names other than the control name",
+    "C01_model_is_source_n_unique_doses": "translated property = number of distinct doses other than 0.0",
+    "C01_model_is_source_doses_for_treatment": "translated method = the distinct non-zero doses of the mapping rows of that name, ascending",
+    "C01_model_is_source_treatment_ids_from_treatment_name": "translated method = the distinct ids of the mapping rows of that name, ascending",
+    "C01_model_is_source_sample_id_from_sample_name": "translated method = the id of the ONLY sample-mapping row with that name; no row or "
+        "several rows: .item() raises (Err 36)",
+    "C01_model_is_source_sample_name_from_sample_id": "translated method = the name of the ONLY sample-mapping row with that id, else Err 36",
+    "C01_space_sample_lookups_inverse": "on the space from_screen builds for a constructed screen the two TRANSLATED lookups are mutually "
+        "inverse: id_of(name) = Ok i iff name_of(i) = Ok name (a supplied sample mapping must not repeat a name or an id)",
+    "C01_space_sample_id_of_row": "there, every sample name of the screen has an id: the one its experiments carry",
+    "C01_space_sample_id_bounded": "there (mapping built by the constructor) an id the translated lookup returns satisfies 0 <= id < n_unique_samples",
+    "C01_space_treatment_ids_bounded": "every id treatment_ids_from_treatment_name returns is the sentinel or lies in 0..n_unique_treatments-1",
+    "C01_space_doses_for_treatment_spec": "d is returned by doses_for_treatment(name) iff d != 0 and (name, d) is a key of the treatment mapping",
     "C01_model_is_source_init": "mk_screen (for whatever the call passes) = refuse ragged rows; the two translated observation-mask runs of "
         "Screen.__init__ (C12 link); then the translated id run on the rows they leave - the constructor model tied to the source statement "
         "by statement; same hypotheses",
@@ -95,7 +114,17 @@ EXPLANATION = ("Model: Model/Encode.v + Model/Screen.v (mk_screen). Compared exa
                "computed table, that a failed merge raises, the loop over range(arity), which existing_mapping each encoder call receives, the "
                "validation raises - is read from the source by the translation.  The three callee names inside Screen.__init__ run their own "
                "translations.  Statements of Screen.__init__ outside the translated runs (shape / dtype checks of the other arrays, the plain "
-               "attribute stores at the end) are not covered.")
+               "attribute stores at the end) are not covered.  "
+               "EXPERIMENTSPACE (configurations LS_SPACE_* in harness/src_functions.py, output Generated/SrcSpaceMethods.v, proofs "
+               "Proofs/C01Source_Space{Init,Counts,ByName,SampleLookup}.v, models: last part of Model/Persist.v): __init__, n_unique_treatment_types, "
+               "n_unique_doses, doses_for_treatment, treatment_ids_from_treatment_name, sample_id_from_sample_name, sample_name_from_sample_id are "
+               "translated whole; the object is pyspace = its three attributes as stored (typed fields: self.treatment_mapping / .sample_mapping / "
+               ".control_treatment_name read and stored as the components of the triple).  Primitives trusted there, ONE call each: the tuple "
+               "projections m[0], m[1], m[2]; np.array([x]) (the same values); a == v elementwise on a str / int array; a[mask] (the elements where "
+               "the mask is True, IndexError = tag 35 unless the lengths agree); a.item() (the only element of an array of size 1, else ValueError = "
+               "tag 36); np.unique (sorted distinct values); np.sort; a.size; np.setdiff1d(a, b) (sorted distinct values of a not in b); the float "
+               "literal 0.0 as the dose key 0.  Which column is compared with the argument, which column the mask selects from, that the control "
+               "name / 0.0 is removed before counting, and the order of the calls are read from the source.")
 
 
 def _pred_screen(d, s):
@@ -191,6 +220,19 @@ def gen(rng, tier):
             ids = list(range(u)) + [rng.randrange(u) for _ in range(rng.randint(0, 3) if u else 0)] + ([-1] if rng.random() < 0.5 else [])
             rng.shuffle(ids)
         yield dict(kind="valid_ids", ids=ids, isint=rng.random() < 0.85)
+    for _ in range(80 * N):
+        tm = [[rng.choice(sl.NAMES[:6]), rng.choice(sl.DOSES), rng.choice([-1, 0, 1, 2, 3])] for _ in range(rng.choice([0, 1, 2, 3, 5, 8]))]
+        sm = [[rng.choice(sl.NAMES[:5]), rng.choice([0, 1, 2, 3])] for _ in range(rng.choice([0, 1, 2, 3, 4, 6]))]
+        if rng.random() < 0.5:      # a proper sample mapping: distinct names, ids 0..n-1
+            names = rng.sample(sl.NAMES, rng.randint(0, 5))
+            sm = [[n, i] for i, n in enumerate(sorted(names))]
+        yield dict(kind="space", tmap=tm, smap=sm, ctrl=rng.choice(sl.CTRLS), tname=rng.choice(sl.NAMES[:6]), sname=rng.choice(sl.NAMES[:6]),
+                   sid=rng.choice([-1, 0, 1, 2, 3, 4]))
+    for _ in range(60 * N):
+        ctrl = rng.choice(sl.CTRLS)
+        rows, a = sl.gen_rows(rng, n=rng.choice([1, 2, 3, 4, 6, 8, 10]), ctrl=ctrl)
+        yield dict(kind="space_of_screen", rows=rows, arity=a, ctrl=ctrl, obs_given=True, mask_given=True, tmap=None, smap=None,
+                   tname=rng.choice(sl.NAMES[:6] + [ctrl]), sname=rng.choice(sl.NAMES), sid=rng.choice([-1, 0, 1, 2, 3, 4]))
 
 
 def _features(d):
@@ -320,7 +362,74 @@ def run(desc):
         pred = None if out == expect else "numpy_array_is_0_indexed_integers(%r) = %r" % (ids, out)
         return dict(wire=[2, desc["isint"], ids], impl=out, pred=pred, features=["valid_ids"] + (["trivial"] if len(ids) < 2 else []),
                     cmp=lambda m, i: None if bool(m) == i else "model %r impl %r" % (m, i))
+    if k in ("space", "space_of_screen"):
+        return _run_space(desc)
     raise ValueError(k)
+
+
+def _space_queries(sp, tname, sname, sid):
+    """the six query methods of a real ExperimentSpace, canonical"""
+    return [int(sp.n_unique_treatment_types), int(sp.n_unique_doses),
+            [float_key(x) for x in sp.doses_for_treatment(tname)],
+            [int(x) for x in sp.treatment_ids_from_treatment_name(tname)],
+            _nested(impl_call(lambda: int(sp.sample_id_from_sample_name(sname)))),
+            _nested(impl_call(lambda: common.s2l(str(sp.sample_name_from_sample_id(sid)))))]
+
+
+def _nested(x):
+    """an exception inside a compound answer, JSON-able (common.cmp_result reads {"err": ...} as a raise)"""
+    return {"err": x.cls} if isinstance(x, ImplError) else x
+
+
+def _cmp_space(m, i):
+    if isinstance(m, str) or not isinstance(m, list) or len(m) != 6:
+        return "model driver failure / malformed output: %r" % (m,)
+    for j, what in enumerate(["n_unique_treatment_types", "n_unique_doses", "doses_for_treatment", "treatment_ids_from_treatment_name"]):
+        if m[j] != i[j]:
+            return "%s: model %r impl %r" % (what, m[j], i[j])
+    for j, what in [(4, "sample_id_from_sample_name"), (5, "sample_name_from_sample_id")]:
+        r = cmp_result()(m[j], i[j])
+        if r is not None:
+            return what + ": " + r
+    return None
+
+
+def _run_space(desc):
+    from batchie.data import ExperimentSpace
+
+    k = desc["kind"]
+    pred = None
+    if k == "space":
+        tm, sm = desc["tmap"], desc["smap"]
+        sp = ExperimentSpace(treatment_mapping=sl.np_tmap(dict(rows=tm, isint=True)), sample_mapping=sl.np_smap(dict(rows=sm, isint=True)),
+                             control_treatment_name=desc["ctrl"])
+        if (str(sp.control_treatment_name), sl.canon_tmap(sp.treatment_mapping), sl.canon_nmap(sp.sample_mapping)) != (
+                desc["ctrl"], sl.canon_tmap(sl.np_tmap(dict(rows=tm, isint=True))), sl.canon_nmap(sl.np_smap(dict(rows=sm, isint=True)))):
+            pred = "ExperimentSpace.__init__ does not store its arguments"
+    else:
+        s = sl.build(desc)
+        sp = ExperimentSpace.from_screen(s)
+        tm = [[str(n), float(x), int(i)] for n, x, i in zip(*s.treatment_mapping)]
+        sm = [[str(n), int(i)] for n, i in zip(*s.sample_mapping)]
+        # the property's clauses on the space of a constructed screen
+        for n_, i_ in sm:
+            if sp.sample_id_from_sample_name(n_) != i_ or str(sp.sample_name_from_sample_id(i_)) != n_:
+                pred = "sample lookups are not mutually inverse on sample %r / id %d" % (n_, i_)
+            if not 0 <= i_ < sp.n_unique_samples:
+                pred = "sample id %d not below n_unique_samples %d" % (i_, sp.n_unique_samples)
+        for n_ in {r[0] for r in tm}:
+            for i_ in sp.treatment_ids_from_treatment_name(n_):
+                if not (i_ == -1 or 0 <= i_ < sp.n_unique_treatments):
+                    pred = "treatment id %d of %r neither the sentinel nor below n_unique_treatments" % (i_, n_)
+    q = _space_queries(sp, desc["tname"], desc["sname"], desc["sid"])
+    doses = q[2]
+    want = sorted({float_key(x) for n, x, _ in tm if n == desc["tname"] and float_key(x) != 0})
+    if pred is None and doses != want:
+        pred = "doses_for_treatment(%r) = %r, the mapping's non-zero doses of that name are %r" % (desc["tname"], doses, want)
+    f = [k] + (["trivial"] if len(tm) + len(sm) < 2 else []) + (["lookup_raises"] if isinstance(q[4], dict) or isinstance(q[5], dict) else [])
+    wire = [3, [[[common.s2l(n), float_key(x)], int(i)] for n, x, i in tm], [[common.s2l(n), int(i)] for n, i in sm], common.s2l(desc["ctrl"]),
+            common.s2l(desc["tname"]), common.s2l(desc["sname"]), int(desc["sid"])]
+    return dict(wire=wire, impl=q, pred=pred, features=f, cmp=_cmp_space)
 
 
 def shrink(desc):
